@@ -1,6 +1,7 @@
 #!/bin/bash
 # developer tool: like seed_sweep.sh but on scratch exports of /repo HEAD (outside /repo and /verif), so several properties can be swept in parallel
 # and /repo stays untouched:  seed_sweep_copy.sh C04-c C04-d   (seeds of one property run one after the other; start one process per property)
+mkdir -p /tmp/wt
 cd /verif
 for n in "$@"; do
   d=/verif/seeded/$n; ID=${n%-*}
